@@ -1421,6 +1421,58 @@ def savable_members(doc):
             bad.append('a state that records no loader was resolved through the loader recorded in a state loaded EARLIER with the same context')
     except Exception as e:  # noqa
         bad.append(f'two loads through one shared context raised {type(e).__name__}: {e}')
+    # ---- futures: restored pending, resolved (falsy results too), failed or cancelled as they were -- on their own and as members
+    import asyncio as _aio
+    _loop = _aio.new_event_loop()
+    _aio.set_event_loop(_loop)
+    try:
+        def fut_state(f):
+            if not f.done():
+                return ('pending',)
+            if f.cancelled():
+                return ('cancelled',)
+            if f.exception() is not None:
+                return ('failed', type(f.exception()).__name__, f.exception().args)
+            return ('result', f.result())
+
+        def make(kind):
+            f = persistence.SavableFuture(loop=_loop)
+            if kind == 'result':
+                f.set_result({'v': [1, 2]})
+            elif kind == 'falsy':
+                f.set_result(0)
+            elif kind == 'none':
+                f.set_result(None)
+            elif kind == 'failed':
+                f.set_exception(ValueError('boom', 3))
+            elif kind == 'cancelled':
+                f.cancel()
+            return f
+
+        @persistence.auto_persist('fut', 'plain')
+        class Holder(persistence.Savable):
+            def __init__(self, fut):
+                self.fut, self.plain = fut, 'p'
+        Holder.__qualname__ = 'Holder'
+        Holder.__module__ = __name__
+        globals()['Holder'] = Holder
+        for kind in ('pending', 'result', 'falsy', 'none', 'failed', 'cancelled'):
+            for wrapped in (False, True):
+                f = make(kind)
+                what = f'a {kind} SavableFuture' + (' held as a member' if wrapped else '')
+                try:
+                    obj = Holder(f) if wrapped else f
+                    st_ = obj.save()
+                    back = persistence.Savable.load(st_, persistence.LoadSaveContext(loop=_loop))
+                    got = fut_state(back.fut if wrapped else back)
+                except BaseException as e:  # noqa  (CancelledError is not an Exception)
+                    bad.append(f'{what}: save/load raised {type(e).__name__}: {e}')
+                    continue
+                if got != fut_state(f):
+                    bad.append(f'{what}: restored as {got}, it was {fut_state(f)}')
+    finally:
+        _loop.close()
+        _aio.set_event_loop(None)
     # ---- members declared lazily in the persist() hook: also when an instance of the PARENT class was saved before
     class LazyBase(persistence.Savable):
         @classmethod
@@ -2102,8 +2154,25 @@ def process_resume_values(doc):
             W.got = args
             return 1
 
+    class Elementwise:
+        """a value whose == does not answer with a bool (array-like: the truth value of the comparison is refused)"""
+        def __eq__(self, other):
+            raise ValueError('the truth value of an elementwise comparison is ambiguous')
+
+        def __repr__(self):
+            return '<array-like>'
+        __hash__ = object.__hash__
+
+    class EqualsAnything:
+        def __eq__(self, other):
+            return True
+
+        def __repr__(self):
+            return '<equals anything>'
+        __hash__ = object.__hash__
+
     async def main():
-        for value in (SENT, None, 0, 42, 'v', ()):
+        for value in (SENT, None, 0, 42, 'v', (), Elementwise(), EqualsAnything()):
             W.got = 'not called'
             proc = W()
             await proc.step()
@@ -2114,7 +2183,8 @@ def process_resume_values(doc):
                 proc.resume(value)
             await asyncio.wait_for(proc.step_until_terminated(), 10)
             want = () if value is SENT else (value,)
-            if W.got != want or proc.state.name != 'FINISHED':
+            same = isinstance(W.got, tuple) and len(W.got) == len(want) and all(a is b for a, b in zip(W.got, want))
+            if not same or proc.state.name != 'FINISHED':
                 return (f'Wait(f) then resume({"" if value is SENT else repr(value)}): the continuation received {W.got!r} (state {proc.state.name}); '
                         f'expected f{want!r}')
         return None
